@@ -116,8 +116,9 @@ class Contract:
                  allocates=False, loops=None, returns='none', axioms=(), hints=None,
                  role=False, pure=False, noraise_ok=True, ghost=None, cases=None, free_requires=(),
                  known=None, defaults=None, ghost_init=None, varkw=None, ghost_kinds=None,
-                 call_asserts=None, call_ghost=None, call_effects=None):
+                 call_asserts=None, call_ghost=None, call_effects=None, target=None):
         self.name = name
+        self.target = target or name    # qualified name of the code this contract is checked against
         self.params = params            # ordered dict name -> kind
         self.requires = list(requires)
         self.free_requires = list(free_requires)   # assumed on entry, not asserted at call sites
